@@ -11,7 +11,10 @@ import hypothesis.strategies as st
 from pbt import treemodel
 
 LEVEL_NAMES = ['class', 'subclass', 'supertype', 'cluster', 'subcluster']
-PREFIX = {'class': 'cs', 'subclass': 'sc', 'supertype': 'st', 'cluster': 'cl', 'subcluster': 'sb'}
+PREFIX = {'class': 'cs', 'subclass': 'sc', 'supertype': 'st', 'cluster': 'cl', 'subcluster': 'sb',
+          'level': 'la', 'level_1': 'lb', 'level_12': 'lc', 'level_123': 'ld', 'level_1234': 'le'}
+# level names each of which is a string prefix of the next
+LEVEL_NAMES_NESTED = ['level', 'level_1', 'level_12', 'level_123', 'level_1234']
 
 # names that need CSV quoting / look numeric / unicode
 ODD_CHARS = [',', '"', "'", ' ', ';', '=', '(', ')', '[', ']', 'é', 'β', '/', '#', ':']
@@ -75,6 +78,8 @@ def trees(draw, max_levels=4, max_leaves=12, min_levels=1, allow_odd=True,
         lo = w
     namer = draw(node_namer(allow_odd=allow_odd))
     levels = LEVEL_NAMES[-n_levels:] if draw(st.booleans()) else LEVEL_NAMES[:n_levels]
+    if n_levels <= len(LEVEL_NAMES_NESTED) and draw(st.integers(0, 5)) == 0:
+        levels = LEVEL_NAMES_NESTED[:n_levels] if draw(st.booleans()) else LEVEL_NAMES_NESTED[:n_levels][::-1]
     namer = dict(namer, levels=list(levels))
     data = {'hierarchy': list(levels)}
     names = [[make_name(namer, li, i) for i in range(w)] for li, w in enumerate(widths)]
@@ -219,6 +224,8 @@ def query_specs(draw, ref_genes, must_include=(), max_cells=16, dtypes=DTYPES,
     return {
         'genes': list(genes), 'cells': list(cells),
         'idx_dtype': idx_dtype,
+        'obs_index_name': draw(st.sampled_from([None, None, None, 'cell_label', 'cell_id'])),
+        'var_index_name': draw(st.sampled_from([None, None, None, 'gene_identifier', 'gene_symbol'])),
         'seed': draw(st.integers(0, 2**31 - 1)),
         'max_count': max_count,
         'density': draw(st.sampled_from([0.4, 0.8, 0.9, 1.0])),
